@@ -17,6 +17,7 @@ RULES = {
     "C10.R4": lambda ctx: adjrules.only_tokens(ctx, "C10.R4"),
     "C10.R4b": lambda ctx: typesrules.sort_after_write(ctx, "C10.R4b"),
     "C10.R4c": lambda ctx: typesrules.key_agreement(ctx, "C10.R4c"),
+    "C10.R0": lambda ctx: __import__("rules.foundations", fromlist=["x"]).accessors(ctx, "C10.R0", ['types::Token', 'TokenIter', 'types::SourceMap::get_token', 'types::SourceMap::tokens']),
     "C10.R5": lambda ctx: adjrules.adj_pf(ctx, "C10.R5"),
 }
 
